@@ -466,6 +466,41 @@ def _(i, st, a, c):
     return z3.If(x > 0, z3.IntVal(1), z3.If(x < 0, z3.IntVal(-1), z3.IntVal(0)))
 
 
+def _int_bits(callee):
+    m = re.search(r'<impl ([ui])(8|16|32|64|128|size)>', callee)
+    if not m:
+        raise Unsupported('integer width of ' + callee)
+    return m.group(1), 64 if m.group(2) == 'size' else int(m.group(2))
+
+
+def _wrap(v, sg, bits):
+    if is_z3(v):
+        if sg == 'u':
+            return v % (1 << bits)
+        return (v + (1 << (bits - 1))) % (1 << bits) - (1 << (bits - 1))
+    w = v % (1 << bits)
+    return w if sg == 'u' or w < (1 << (bits - 1)) else w - (1 << bits)
+
+
+@model(r'core::num::<impl [ui](8|16|32|64|128|size)>::wrapping_(add|sub|mul)')
+def _(i, st, a, c):
+    sg, bits = _int_bits(c)
+    op = re.search(r'wrapping_(add|sub|mul)', c).group(1)
+    r = arith({'add': '+', 'sub': '-', 'mul': '*'}[op], a[0], a[1])
+    return _wrap(r, sg, bits)
+
+
+@model(r'core::num::<impl [ui](8|16|32|64|128|size)>::saturating_(add|sub)')
+def _(i, st, a, c):
+    sg, bits = _int_bits(c)
+    op = re.search(r'saturating_(add|sub)', c).group(1)
+    lo, hi = (0, (1 << bits) - 1) if sg == 'u' else (-(1 << (bits - 1)), (1 << (bits - 1)) - 1)
+    r = arith('+' if op == 'add' else '-', a[0], a[1])
+    if is_z3(r):
+        return z3.If(r > hi, z3.IntVal(hi), z3.If(r < lo, z3.IntVal(lo), r))
+    return max(lo, min(hi, r))
+
+
 @model(r'core::num::<impl i32>::abs')
 def _(i, st, a, c):
     x = a[0]
